@@ -460,7 +460,9 @@ def dmtx_from_csv(path, frametimes=None):
     """
     import csv
     with open(path, newline='') as csvfile:
-        dialect = csv.Sniffer().sniff(csvfile.read())
+        # restrict the guess to real separators: on a one-column file the
+        # sniffer otherwise picks a digit or a letter of the header
+        dialect = csv.Sniffer().sniff(csvfile.read(), delimiters=',;\t ')
         csvfile.seek(0)
         reader = csv.reader(csvfile, dialect)
         boolfirst = True
